@@ -116,6 +116,9 @@ func vModifiesMems(patterns ...string) {}
 // vAtEntry (loop invariants only): the value x had when the loop was entered.
 func vAtEntry(x int) int { return x }
 
+// vFuel sets how many times recursive spec functions are unfolded in this harness (default 1).
+func vFuel(n int) {}
+
 // vReveal makes the definitions of the spec_opq_* functions visible in this
 // harness (elsewhere they are uninterpreted, so proofs go by congruence and
 // lemma instances instead of bit-blasting).
